@@ -105,12 +105,13 @@ theorem hiddenPlace_mk_at (fuel : Nat) (root : Val) (q : Pos) (ni : Option Str) 
       = .ok { parent := .at q, nameIdx := ni, value := v, found := f, notFound := nf } :=
   hiddenPlace_at fuel root _ q rfl
 
-theorem delPlace_notWrap (fuel : Nat) (root : Val) (r : Res) (h : isWrap r.parent = false) :
-    delPlace fuel root r = .ok r := by
+theorem delPlace_notWrap (fuel : Nat) (root : Val) (tok : Str) (r : Res) (h : isWrap r.parent = false) :
+    delPlace fuel root tok r = .ok (some r) := by
   simp [delPlace, h]
 
-theorem delPlace_at (fuel : Nat) (root : Val) (r : Res) (q : Pos) (h : r.parent = .at q) : delPlace fuel root r = .ok r :=
-  delPlace_notWrap fuel root r (by rw [h]; rfl)
+theorem delPlace_at (fuel : Nat) (root : Val) (tok : Str) (r : Res) (q : Pos) (h : r.parent = .at q) :
+    delPlace fuel root tok r = .ok (some r) :=
+  delPlace_notWrap fuel root tok r (by rw [h]; rfl)
 
 theorem isWrap_at (q : Pos) : isWrap (.at q) = false := rfl
 
